@@ -11,6 +11,8 @@ FIXES = [('90efd8b','C03','P1 layout bytes alias pooled buffer'), ('0c85171','C1
  ('41037af','C11','P10 FastCaller skip off by one'), ('b81be82','C14','P11 retention prefix-only match'), ('8c7546d','C17','P12a strconv.Unquote rejects \\/ and raw newlines'),
  ('f57f549','C17','P12b unbounded syntax-error accumulation'), ('d14f145','C15','P13 numeric attributes not range-checked'), ('62ce6b7','C01','P15 non-separating rolling logger ignores upper bound above MAX'),
  ('0123ed9','C13','P14a writer overtaken by two rotations loses its line'), ('6746979','C05','P14b rotation overtaken by the next one leaks a descriptor')]
+RELATED = {'C07': ['C03', 'C08'], 'C08': ['C07', 'C03'], 'C13': ['C19', 'C05', 'C20'], 'C05': ['C19', 'C13', 'C04'], 'C06': ['C03', 'C04', 'C12'], 'C04': ['C06', 'C05'], 'C03': ['C07', 'C20'], 'C10': ['C16', 'C01'], 'C12': ['C06', 'C04'], 'C19': ['C13', 'C05'], 'C20': ['C13', 'C14', 'C03'], 'C14': ['C20'], 'C01': ['C15', 'C02'], 'C02': ['C16', 'C01'], 'C15': ['C17', 'C01'], 'C16': ['C10', 'C02'], 'C17': ['C15'], 'C09': ['C07', 'C08'], 'C11': ['C10'], 'C18': ['C02']}
+
 def run(src, pid):
     p = subprocess.run(['./mut.sh', src, pid], capture_output=True, text=True)
     keys = re.findall(r'^\s+key: (.*)$', p.stdout, re.M)
@@ -27,9 +29,17 @@ if mode in ('seeded', 'all'):
         meta = json.load(open(f'seeded/{d}/meta.json'))
         pid = meta['property']
         r = run(f'/verif/seeded/{d}/patch.diff', pid)
+        if not r['caught']:
+            # a change may violate its property only in circumstances that belong to a neighbouring property's
+            # workload (e.g. concurrency, outages): record which other quick check flags it
+            for other in RELATED.get(pid, []):
+                r2 = run(f'/verif/seeded/{d}/patch.diff', other)
+                if r2['caught']:
+                    r['caught_by_other'] = other; r['other_keys'] = r2['keys'][:3]
+                    break
         r['summary'] = meta.get('summary', '')[:300]; r['property'] = pid
         res['seeded'][d] = r
-        print(d, pid, 'CAUGHT' if r['caught'] else 'MISSED rc=%s' % r['rc'], r['keys'][:2], flush=True)
+        print(d, pid, 'CAUGHT' if r['caught'] else ('MISSED by own check; caught by %s %s' % (r.get('caught_by_other'), r.get('other_keys')) if r.get('caught_by_other') else 'MISSED rc=%s' % r['rc']), r['keys'][:2], flush=True)
         json.dump(res, open('seeded/RESULTS.json', 'w'), indent=1)
 if mode in ('fixes', 'all'):
     for c, pid, what in FIXES:
